@@ -50,6 +50,14 @@ fn nt_c13(r: &RunOut) -> bool {
     crate::oracle::probe_c05(&ix) && (ix.fault("cancel_op") > 0 || ix.ops.iter().any(|o| o.brief == "Ready") || ix.fault("wr_stall") > 0)
 }
 
+fn nt_c11(r: &RunOut) -> bool {
+    crate::oracle::probe_c11(&Ix::new(r))
+}
+
+fn nt_c12(r: &RunOut) -> bool {
+    crate::oracle::probe_c12(&Ix::new(r))
+}
+
 fn nt_c14(r: &RunOut) -> bool {
     crate::oracle::probe_c14(&Ix::new(r))
 }
@@ -127,11 +135,40 @@ pub fn spec(id: &str) -> Option<PropSpec> {
             nontrivial: nt_c14,
             assumptions: base,
         },
+        "C11" => PropSpec {
+            id: "C11",
+            level: "exploration",
+            families: vec![(Family::C11, 100)],
+            quick_runs: 24_000,
+            thorough_runs: 2_000_000,
+            rule: "one run = 3..10 requests over the id alphabet {1,2,3} (PUBLISH QoS1/2, SUBSCRIBE, UNSUBSCRIBE, PUBREL, some stray) against gated handlers completing ok/negative before or after the reuse attempt; wire-side model: an id is open from the request until the k-th closing ack (PUBACK / refusing PUBREC / PUBCOMP / SUBACK / UNSUBACK) of its kind, refusals (0x91, 0x92) attributed to the most plausible request; oracle: a request whose id is certainly in use never reaches a handler, one whose id is certainly free is never refused, a PUBREL for an id not in use is refused; distinct = distinct abstract history signature; non-trivial = an id was used by two requests in the run",
+            nontrivial: nt_c11,
+            assumptions: base,
+        },
+        "C12" => PropSpec {
+            id: "C12",
+            level: "exploration",
+            families: vec![(Family::C12, 100)],
+            quick_runs: 24_000,
+            thorough_runs: 2_000_000,
+            rule: "one run = a burst of 2..10 publishes (sizes around the byte limit, some streamed in pieces) against gated handlers, max_receive 0..4, max_receive_size 0/small/large, v3 default middleware (server), v3 client limiter, v5 Receive Maximum (server and client); oracle: handler overlap <= max_receive (v3), packet bytes inside handlers <= max_receive_size + one packet, a QoS1/2 publish never reaches a v5 handler when handlers running plus QoS2 exchanges awaiting PUBREL already equal Receive Maximum, a peer within Receive Maximum is never disconnected with 0x93, and after the closing phase (all gates opened) every delivered publish was handled and every handler finished; distinct = distinct abstract history signature; non-trivial = a configured limit was reached (handlers running == max_receive, bytes over max_receive_size, or unacknowledged publishes == Receive Maximum)",
+            nontrivial: nt_c12,
+            assumptions: base,
+        },
+        "C16" => PropSpec {
+            id: "C16",
+            level: "exploration",
+            families: vec![(Family::C16, 70), (Family::C11, 10), (Family::C06, 10), (Family::C04, 10)],
+            quick_runs: 30_000,
+            thorough_runs: 2_500_000,
+            rule: "one run = 1..8 well-formed packets drawn from 17 (v5) / 15 (v3) templates with ids {1,2,3} (unexpected directions, duplicate CONNECT/CONNACK, AUTH, acks for nothing, stray PUBREL, streamed publish after a publish with the same id), optionally instead of the handshake, against idle or busy application state (outstanding QoS1/QoS2/subscribe/streamed sends, gated handlers) followed by a liveness probe (PINGREQ to servers, QoS1 publish to clients); oracle: no panic anywhere (monitor applies to every family), connection either alive and answering the probe at final quiescence or ended with exactly one Stop to the control service and a completed connection task; sampled, not enumerated: sequences of length <= 3 form a space of about 20k per batch of 30k runs; distinct = distinct abstract history signature; non-trivial = every run",
+            nontrivial: nt_any,
+            assumptions: base,
+        },
         _ => {
-            let _ = nt_any;
             return None;
         }
     })
 }
 
-pub const ALL: [&str; 7] = ["C03", "C04", "C05", "C06", "C08", "C13", "C14"];
+pub const ALL: [&str; 10] = ["C03", "C04", "C05", "C06", "C08", "C11", "C12", "C13", "C14", "C16"];
